@@ -294,6 +294,55 @@ pub fn run(ctx: &Ctx) -> Result<(), String> {
         return Err(e);
     }
 
+    // identical datagrams in one batch (a client's retransmission, the same nonce chosen twice): every
+    // copy is a request of its own with its own position in the batch
+    {
+        let pats: Vec<Vec<usize>> = vec![vec![0, 0], vec![0, 0, 1], vec![0, 1, 1, 0], vec![0, 0, 0, 0, 1], vec![0, 1, 0, 1, 2, 2], vec![0, 0, 1, 2], vec![0, 1, 2, 2, 2, 3, 0]];
+        let mut cases = vec![];
+        for v in [Version::Classic, Version::Ietf13] {
+            for bs in [64u8, 3, 2] {
+                for (pi, _) in pats.iter().enumerate() {
+                    cases.push((v, bs, pi));
+                }
+            }
+        }
+        par_for(cases.len(), 4, |k, _| {
+            let (v, bs, pi) = cases[k];
+            let cfg = SrvCfg { batch_size: bs, ..Default::default() };
+            let lt_pk = crypto::public_key(&cfg.seed);
+            let r = (|| -> Result<Option<(String, String)>, String> {
+                let mut srv = Srv::new(&cfg)?;
+                let reqs: Vec<Vec<u8>> = pats[pi].iter().map(|&id| rtref::responder::std_request(v, &nonce(0xd0_0000 + id as u64, v.nonce_len()))).collect();
+                let clients: Vec<Client> = reqs.iter().map(|_| Client::new()).collect();
+                for (c, r) in clients.iter().zip(&reqs) {
+                    c.send(srv.addr, r);
+                }
+                if let Err(p) = srv.settle() {
+                    return Ok(Some(("panic".into(), p)));
+                }
+                for (i, (c, r)) in clients.iter().zip(&reqs).enumerate() {
+                    let got = c.drain();
+                    if got.len() != 1 {
+                        return Ok(Some((if got.is_empty() { "no-reply".into() } else { "extra-replies".into() }, format!("request {} of the batch: {} datagrams", i, got.len()))));
+                    }
+                    if let Err(cl) = authentic(&got[0].0, r, v, Some(&lt_pk), SERVER_VIEW) {
+                        return Ok(Some((cl.to_string(), format!("request {} of the batch: reference verifier rejects its reply: {}", i, cl))));
+                    }
+                }
+                stats.replies.fetch_add(reqs.len() as u64, Relaxed);
+                Ok(None)
+            })();
+            stats.histories.fetch_add(1, Relaxed);
+            match r {
+                Err(e) => *failed.lock().unwrap() = Some(e),
+                Ok(None) => {}
+                Ok(Some((clause, msg))) => ctx.violation(&clause, "reply", &format!("{}/identical-datagrams-in-one-batch", v.name()), json!({"kind":"duplicates","version":v.name(),"batch_size":bs,"nonce_ids":pats[pi],"message":msg})),
+            }
+        });
+        if let Some(e) = failed.lock().unwrap().take() {
+            return Err(e);
+        }
+    }
     // fault injection: dichotomy per reply (decided over everything emitted) + sampled rate
     let ps: Vec<u8> = ctx.tier.pick(vec![1, 25, 50], (1..=50).collect());
     let per_p = ctx.tier.pick(2048usize, 4096);
